@@ -102,7 +102,7 @@ Section Lines.
   Definition effs_line (l : list Z) : bool := match in_rd l with Wf (LEffs _) => true | _ => false end.
 
   Definition seg (ls : list (list Z)) (es : list effect) : Prop :=
-    Forall (fun l => effs_line l = true) ls /\
+    Forall (fun l => wf_in_line js jm ncp l = true) ls /\
     forall p x, exists x', sem (p, x) ls = (apply_effs p es, x').
 
   Lemma seg_nil : seg [] [].
@@ -121,12 +121,12 @@ Section Lines.
     unfold in_read. intros H. destruct (existsb (Z.eqb 10) l) eqn:E; [discriminate|]. apply existsb_nolf. exact E.
   Qed.
 
-  Lemma wf_line_nolf l : effs_line l = true -> nolf l = true.
-  Proof. unfold effs_line. destruct (in_rd l) eqn:E; try discriminate. intros _. eapply in_read_wf_nolf; eauto. Qed.
+  Lemma wf_line_nolf l : wf_in_line js jm ncp l = true -> nolf l = true.
+  Proof. unfold wf_in_line. destruct (in_rd l) eqn:E; try discriminate. intros _. eapply in_read_wf_nolf; eauto. Qed.
 
   Lemma seg_one l es : in_rd l = Wf (LEffs es) -> seg [l] es.
   Proof.
-    intros H. split; [constructor; [unfold effs_line; rewrite H; reflexivity|constructor]|]. intros p x. exists x.
+    intros H. split; [constructor; [unfold wf_in_line; rewrite H; reflexivity|constructor]|]. intros p x. exists x.
     unfold sem_in_lines. cbn [fold_left]. unfold sem_in_line. rewrite H. reflexivity.
   Qed.
 
